@@ -1321,7 +1321,7 @@ cdef class ParticleArray:
 
     cpdef set_tag(self, long tag_value, LongArray indices):
         """Set value of tag to tag_value for the particles in indices """
-        cdef LongArray tag_array = self.get_carray('tag')
+        cdef IntArray tag_array = self.get_carray('tag')
         cdef int i
 
         for i in range(indices.length):
